@@ -27,7 +27,7 @@ for _tl in ((1, 1, 1, 1), (0, 1, 1, 0), (1, 0, 1, 1), (1, 1, 0, 1), (0, 0, 1, 0)
 PROPS["C12"] = {
     "level": "other",
     "explanation": "The ERASE LAYER of critic_markup.c (accept_token_tree/accept_token/accept_token_tree_sub and the reject twins, the real functions) is checked on well-formed CriticMarkup token trees built by the harness in exactly the shape the tokenizer + pair matcher produce: after accept (reject) the string equals, byte for byte, the reference result computed by spec code on the same shape (ghost index), for both modes, all five mark kinds, marks nested in ADD/DEL/HI, unmatched markers (left untouched) and a stray '~>'.  Bounded: one unit per concrete vector of text-run lengths, text bytes symbolic; DString is the ghost sink (C19).",
-    "slice": "accept_token_tree, accept_token, accept_token_tree_sub, reject_token_tree, reject_token, reject_token_tree_sub",
+    "slice": "accept_token_tree, accept_token, accept_token_tree_sub, reject_token_tree, reject_token, reject_token_tree_sub; trie_insert / trie_node_insert (growth of the node array, realloc by contract); match_set_filter_leftmost_longest; mmd_critic_tokenize_string post-processing",
     "not_reached": "the Aho-Corasick trie construction and search inside mmd_critic_tokenize_string (an end-to-end unit over the real trie did not finish for 2-byte sources in 700 s; the leftmost-longest FILTER and the tokenizer's post-processing are under contract) and the pair matcher on CM tokens (assumed by the shape), critic_parse_substring, idempotence (second pass), the writers' PAIR_CRITIC_* arms and the CLI -a/-r",
     "trusted_base": ["cbmc/goto-cc 6.11.0 (MiniSat2)", "lib/ds_sink.c as the DString specification"],
     "assumptions": [NOFAIL, _C12_SHAPE],
